@@ -69,10 +69,15 @@ Proof.
 Qed.
 
 (* ------------------------------------------------------------------ what an operation appends *)
+(* contig = true: the new object occupies EXACTLY the appended entries, in order (a record: one
+   entry; a container: old length, old length + 1, ...).  contig = false: several entries may be
+   appended per result (a record: the result is the LAST appended entry - `impl Sum`; a
+   container: increasing positions inside the appended block - matrix products). *)
 Definition obj_fresh (contig : bool) (tp tp' : tape) (o : obj) : Prop :=
   exists suf, tp' = tp ++ suf /\
   match o with
-  | ORec r => r_hist r <> None -> (exists e, suf = [e]) /\ r_idx r = length tp
+  | ORec r => r_hist r <> None ->
+      exists pre e, suf = pre ++ [e] /\ r_idx r = length tp + length pre /\ (contig = true -> pre = [])
   | OCont c => c_hist c <> None ->
       incr_in (length tp) (length tp + length suf) (map snd (c_data c)) /\
       (contig = true -> map snd (c_data c) = seq (length tp) (length suf))
@@ -82,7 +87,9 @@ Definition obj_fresh (contig : bool) (tp tp' : tape) (o : obj) : Prop :=
 Definition fspec (contig : bool) (h : hist) (f : tape -> outcome (tape * obj)) : Prop :=
   forall tp tp' o, f tp = Ok (tp', o) -> obj_hist o = h /\ obj_fresh contig tp tp' o.
 
-Definition val_fresh (contig : bool) (st st' : state) (v : outcome (@tm_val R)) : Prop :=
+(* the single-entry form (the statement of next_unused before `impl Sum` became an operation of
+   the machine; kept verbatim, see next_unused_single) *)
+Definition val_fresh_single (contig : bool) (st st' : state) (v : outcome (@tm_val R)) : Prop :=
   match v with
   | Ok (VRec r) => forall h, r_hist r = Some h ->
       exists tp e, tape_of st h = Some tp /\ tape_of st' h = Some (tp ++ [e]) /\ r_idx r = length tp
@@ -96,8 +103,26 @@ Definition val_fresh (contig : bool) (st st' : state) (v : outcome (@tm_val R)) 
   | _ => True
   end.
 
+(* the several-entries form.  A record result with a list: the list grew by `pre ++ [e]`, the
+   record sits at the LAST appended position (old length + length pre); `single = true` says
+   that nothing else was appended (pre = []: the record sits at the old length). *)
+Definition val_fresh (contig single : bool) (st st' : state) (v : outcome (@tm_val R)) : Prop :=
+  match v with
+  | Ok (VRec r) => forall h, r_hist r = Some h ->
+      exists tp pre e, tape_of st h = Some tp /\ tape_of st' h = Some (tp ++ pre ++ [e]) /\
+        r_idx r = length tp + length pre /\ (single = true -> pre = [])
+  | Ok (VCont c) => forall h, c_hist c = Some h ->
+      exists tp suf, tape_of st h = Some tp /\ tape_of st' h = Some (tp ++ suf) /\
+        incr_in (length tp) (length tp + length suf) (map snd (c_data c)) /\
+        (contig = true -> map snd (c_data c) = seq (length tp) (length suf))
+  | Ok (VIdx l) => l = [] \/
+      exists t tp suf, tape_of st t = Some tp /\ tape_of st' t = Some (tp ++ suf) /\
+        incr_in (length tp) (length tp + length suf) l
+  | _ => True
+  end.
+
 Lemma fo_fresh contig (st : state) dst h f st' v : fspec contig h f ->
-  finish st dst (on_tape st h f) = Some (st', v) -> grows st st' /\ val_fresh contig st st' v.
+  finish st dst (on_tape st h f) = Some (st', v) -> grows st st' /\ val_fresh contig contig st st' v.
 Proof.
   intros Sp. unfold on_tape. destruct h as [t|].
   - destruct (tape_of st t) as [tp|] eqn:Et; [|discriminate].
@@ -109,7 +134,7 @@ Proof.
     { rewrite tape_of_put, (tape_of_set_tape st t tp _ t Et), Nat.eqb_refl. reflexivity. }
     destruct o as [r|c|]; cbn [val_fresh obj_hist] in *; [| |exact I].
     + intros h0 Hh. assert (h0 = t) by congruence. subst h0.
-      destruct Hp as [[e ->] Hi]; [congruence|]. exists tp, e. auto.
+      destruct Hp as (pre & e & -> & Hi & Hc); [congruence|]. exists tp, pre, e. auto.
     + intros h0 Hh. assert (h0 = t) by congruence. subst h0.
       destruct Hp as [Hi Hc]; [congruence|]. exists tp, suf. auto.
   - destruct (f []) as [[tp' o]| |] eqn:Ef; cbn [omap finish fst snd];
@@ -120,10 +145,29 @@ Proof.
 Qed.
 
 (* ---- scalar records *)
+Lemma one_entry_fresh contig (tp : tape) (e : entry R) i : i = length tp ->
+  exists pre e0, [e] = pre ++ [e0] /\ i = length tp + length pre /\ (contig = true -> pre = []).
+Proof. intros ->. exists [], e. cbn. repeat split. lia. Qed.
+
+Lemma val_fresh_to_single contig st st' v : val_fresh contig true st st' v -> val_fresh_single contig st st' v.
+Proof.
+  destruct v as [[ |r|c|d|l]| |]; cbn [val_fresh val_fresh_single]; auto.
+  intros H h Hh. destruct (H h Hh) as (tp & pre & e & H1 & H2 & H3 & H4). rewrite (H4 eq_refl) in *.
+  exists tp, e. cbn in *. split; [exact H1|]. split; [exact H2|lia].
+Qed.
+
+Lemma val_fresh_no_rec c s c' s' st st' v : (forall r, v <> Ok (VRec r)) -> (forall x, v <> Ok (VCont x) \/ c = c') ->
+  val_fresh c s st st' v -> val_fresh c' s' st st' v.
+Proof.
+  intros Hr Hc. destruct v as [[ |r|x|d|l]| |]; cbn [val_fresh]; auto.
+  - exfalso. eapply Hr. reflexivity.
+  - destruct (Hc x) as [Q| ->]; [exfalso; apply Q; reflexivity|auto].
+Qed.
+
 Lemma spec_var t x : fspec true (Some t) (fun tp => as_rec (Ok (rec_variable ops tp t x))).
 Proof.
   intros tp tp' o. cbn. intros E; inversion E; subst. split; [reflexivity|].
-  eexists. split; [reflexivity|]. intros _. split; [eexists; reflexivity|reflexivity].
+  eexists. split; [reflexivity|]. intros _. apply one_entry_fresh. reflexivity.
 Qed.
 
 Lemma rec_binary_fresh f (x y : rec) tp tp' z : rec_binary ops tp f x y = Ok (tp', z) ->
@@ -131,7 +175,7 @@ Lemma rec_binary_fresh f (x y : rec) tp tp' z : rec_binary ops tp f x y = Ok (tp
 Proof.
   unfold rec_binary. destruct (negb _); [discriminate|].
   destruct (r_hist x), (r_hist y); cbn; intros E; inversion E; subst; cbn; (split; [reflexivity|]);
-    try (eexists; split; [reflexivity|]; intros _; split; [eexists; reflexivity|reflexivity]).
+    try (eexists; split; [reflexivity|]; intros _; apply one_entry_fresh; reflexivity).
   exists []. split; [rewrite app_nil_r; reflexivity|]. intros H. exfalso. apply H. reflexivity.
 Qed.
 
@@ -153,7 +197,7 @@ Proof.
       intros H. exfalso. apply H. reflexivity.
   - destruct (unfn_of ops (S code) c) as [f|]; cbn; [|discriminate]. unfold rec_unary.
     destruct (r_hist x) as [h|] eqn:Eh; cbn; intros Q; inversion Q; subst; cbn; (split; [reflexivity|]).
-    + eexists. split; [reflexivity|]. intros _. split; [eexists; reflexivity|reflexivity].
+    + eexists. split; [reflexivity|]. intros _. apply one_entry_fresh. reflexivity.
     + exists []. rewrite app_nil_r. split; [reflexivity|]. intros H. exfalso. apply H. reflexivity.
 Qed.
 
@@ -343,15 +387,84 @@ Qed.
    length) (each cell is the last of the 2k - 1 entries appended for it); reset hands out
    increasing positions inside [old length, new length). *)
 Definition is_matmul (o : @tm_op R) : bool := match o with TMatmul _ _ _ => true | _ => false end.
+Definition is_sum (o : @tm_op R) : bool := match o with TSum _ _ => true | _ => false end.
+
+Lemma finish_cont_no_rec (st : state) dst h (f : tape -> outcome (tape * cont)) st' v r :
+  finish st dst (on_tape st h (fun tp => as_cont (f tp))) = Some (st', v) -> v <> Ok (VRec r).
+Proof.
+  unfold on_tape, as_cont. destruct h as [t|].
+  - destruct (tape_of st t); [|discriminate]. destruct (f t0) as [[t1 c]| |]; cbn; intros E; inversion E; discriminate.
+  - destruct (f []) as [[t1 c]| |]; cbn; intros E; inversion E; discriminate.
+Qed.
+
+Lemma grows_set_tape (st : state) t tp suf : tape_of st t = Some tp -> grows st (set_tape st t (tp ++ suf)).
+Proof.
+  intros H t2 tp2 H2. rewrite (tape_of_set_tape st t tp _ t2 H).
+  destruct (Nat.eqb_spec t2 t) as [->|]; [|exists []; rewrite app_nil_r; exact H2].
+  exists suf. rewrite H in H2. inversion H2. reflexivity.
+Qed.
+
+(* impl Sum: what one TSum step does to the machine.  Only the list of the first non-constant
+   summed record can change, and only by appending at most one entry per summed record; the
+   outcome is never an error value; on success the result (written to dst) has that list as its
+   history and sits at the LAST appended entry, a constant result appended nothing; on a panic
+   no register is written and the entries appended so far stay. *)
+Lemma sum_step_spec (st : state) dst rs xs st' v : get_recs st rs = Some xs ->
+  step ops st (TSum dst rs) = Some (st', v) ->
+  exists st1, grows st st1 /\ regs st1 = regs st /\
+    (forall t, sum_hist xs <> Some t -> tape_of st1 t = tape_of st t) /\
+    (forall t tp, sum_hist xs = Some t -> tape_of st t = Some tp ->
+       exists suf, tape_of st1 t = Some (tp ++ suf) /\ length suf <= length rs /\
+         (forall z, v = Ok (VRec z) -> r_hist z = Some t /\ exists pre e, suf = pre ++ [e] /\ r_idx z = length tp + length pre)) /\
+    (sum_hist xs = None -> st1 = st /\ forall z, v = Ok (VRec z) -> r_hist z = None) /\
+    ((v = Panic /\ st' = st1) \/ (exists z, v = Ok (VRec z) /\ st' = put st1 dst (ORec z) /\ r_hist z = sum_hist xs)).
+Proof.
+  intros Eg. cbn [step]. rewrite Eg. unfold sum_on.
+  assert (Lr : length xs = length rs).
+  { clear - Eg. revert xs Eg. induction rs as [|a rs IH]; intros xs; cbn [get_recs].
+    - intros E; inversion E; reflexivity.
+    - destruct (get st a); try discriminate. destruct (get_recs st rs) as [l|]; [|discriminate].
+      intros E; inversion E; subst. cbn. f_equal. apply IH. reflexivity. }
+  destruct (sum_hist xs) as [t|] eqn:Eh.
+  - destruct (tape_of st t) as [tp|] eqn:Et; [|discriminate].
+    destruct (sum_fold ops tp (rec_constant (nzero ops)) xs) as [tp' r] eqn:Ef. cbn [fst snd].
+    destruct (sum_fold_fresh ops _ _ _ _ _ Ef) as (suf & -> & L & Ne & Hz).
+    intros Hs. exists (set_tape st t (tp ++ suf)). split; [apply grows_set_tape; exact Et|]. split; [reflexivity|].
+    split; [intros t2 Hne; rewrite (tape_of_set_tape st t tp _ t2 Et); destruct (Nat.eqb_spec t2 t); [congruence|reflexivity]|].
+    assert (HZ : forall z, r = Ok z -> r_hist z = Some t /\ exists pre e, suf = pre ++ [e] /\ r_idx z = length tp + length pre).
+    { intros z ->. destruct (Hz z eq_refl) as (H1 & _ & H3). cbn [rec_constant r_hist first_hist] in H1. rewrite Eh in H1.
+      split; [exact H1|]. destruct H3 as [[_ ->]|H3]; [congruence|discriminate H1|exact H3]. }
+    split; [|split; [intros Q; discriminate Q|]].
+    + intros t2 tp2 Q Et2. inversion Q; subst t2. rewrite Et in Et2. inversion Et2; subst tp2.
+      exists suf. split; [rewrite (tape_of_set_tape st t tp _ t Et), Nat.eqb_refl; reflexivity|]. split; [lia|].
+      intros z. destruct r as [z0|e|]; cbn [sum_finish] in Hs; inversion Hs; subst; intros Ev; try discriminate Ev.
+      inversion Ev; subst. apply HZ. reflexivity.
+    + destruct r as [z|e|]; cbn [sum_finish] in Hs; inversion Hs; subst.
+      * right. exists z. split; [reflexivity|]. split; [reflexivity|]. apply HZ. reflexivity.
+      * exfalso. eapply Ne. reflexivity.
+      * left. auto.
+  - destruct (sum_fold ops [] (rec_constant (nzero ops)) xs) as [tp' r] eqn:Ef. cbn [fst snd].
+    destruct (sum_fold_fresh ops _ _ _ _ _ Ef) as (suf & _ & _ & Ne & Hz).
+    assert (HZ : forall z, r = Ok z -> r_hist z = None).
+    { intros z ->. destruct (Hz z eq_refl) as (H1 & _). cbn [rec_constant r_hist first_hist] in H1. rewrite Eh in H1. exact H1. }
+    intros Hs. exists st. split; [apply grows_refl|]. split; [reflexivity|]. split; [reflexivity|].
+    split; [intros t tp Q; discriminate Q|]. split.
+    + intros _. split; [reflexivity|]. intros z.
+      destruct r as [z0|e|]; cbn [sum_finish] in Hs; inversion Hs; subst; intros Ev; try discriminate Ev. inversion Ev; subst. apply HZ. reflexivity.
+    + destruct r as [z|e|]; cbn [sum_finish] in Hs; inversion Hs; subst.
+      * right. exists z. split; [reflexivity|]. split; [reflexivity|]. apply HZ. reflexivity.
+      * exfalso. eapply Ne. reflexivity.
+      * left. auto.
+Qed.
 
 Theorem next_unused (st : state) op st' v : step ops st op = Some (st', v) -> (forall t, op <> TClear t) ->
-  grows st st' /\ val_fresh (negb (is_matmul op)) st st' v.
+  grows st st' /\ val_fresh (negb (is_matmul op)) (negb (is_sum op)) st st' v.
 Proof.
   intros Hstep Hnc.
-  assert (SK : forall r, skipped st = Some r -> grows st (fst r) /\ val_fresh true st (fst r) (snd r)).
-  { intros r E. inversion E; subst. split; [apply grows_refl|exact I]. }
+  assert (SK : forall r c s, skipped st = Some r -> grows st (fst r) /\ val_fresh c s st (fst r) (snd r)).
+  { intros r c s E. inversion E; subst. split; [apply grows_refl|exact I]. }
   destruct op as [|dst t x|dst x|dst t tensor sh data|dst tensor sh data|dst assign code c a|dst mode code a b|dst a b
-                  |a elem|t|a|t]; cbn [step is_matmul negb] in *.
+                  |a elem|t|a|t|dst rs]; cbn [step is_matmul is_sum negb] in *.
   - inversion Hstep; subst. split; [|exact I]. intros t tp H. exists []. rewrite app_nil_r.
     unfold tape_of in *. cbn [tapes]. rewrite nth_error_app1; [exact H|apply nth_error_Some; congruence].
   - eapply fo_fresh; [apply spec_var|exact Hstep].
@@ -366,17 +479,21 @@ Proof.
   - destruct (negb (un_code_ok ops code c)); [discriminate|]. destruct (get st a) as [x|x|].
     + eapply fo_fresh; [apply spec_rec_un|exact Hstep].
     + eapply fo_fresh; [apply spec_cont_un|exact Hstep].
-    + apply (SK _ Hstep).
+    + apply (SK _ _ _ Hstep).
   - destruct (binfn_of ops code) as [f|]; [|discriminate].
-    destruct (get st a) as [x|x|], (get st b) as [y|y|]; try apply (SK _ Hstep).
+    destruct (get st a) as [x|x|], (get st b) as [y|y|]; try apply (SK _ _ _ Hstep).
     + eapply fo_fresh; [apply spec_rec_bin|exact Hstep].
-    + destruct (negb (Bool.eqb (c_tensor x) (c_tensor y))); [apply (SK _ Hstep)|].
+    + destruct (negb (Bool.eqb (c_tensor x) (c_tensor y))); [apply (SK _ _ _ Hstep)|].
       destruct (_ || _); [discriminate|]. eapply fo_fresh; [apply spec_cont_bin|exact Hstep].
   - destruct (get st a) as [x|x|], (get st b) as [y|y|];
-      try (destruct (SK _ Hstep) as [G V]; split; [exact G|destruct v as [[]| |]; try exact I; inversion Hstep]).
+      try (destruct (SK _ false true Hstep) as [G V]; split; [exact G|destruct v as [[]| |]; try exact I; inversion Hstep]).
     destruct (negb (Bool.eqb (c_tensor x) (c_tensor y))).
     + inversion Hstep; subst. split; [apply grows_refl|exact I].
-    + destruct (_ || _); [discriminate|]. eapply fo_fresh; [apply spec_matmul|exact Hstep].
+    + destruct (_ || _); [discriminate|].
+      destruct (fo_fresh false st dst _ _ st' v (spec_matmul x y) Hstep) as [G V]. split; [exact G|].
+      eapply val_fresh_no_rec; [| |exact V].
+      * intros r. eapply (finish_cont_no_rec st dst _ (fun tp => c_matmul ops tp x y)). exact Hstep.
+      * intros c0. right. reflexivity.
   - assert (K : st' = st /\ (forall l, v <> Ok (VIdx l)) /\ (forall r, v <> Ok (VRec r)) /\ (forall c0, v <> Ok (VCont c0))).
     { destruct (get st a) as [x|x|].
       - destruct (r_hist x) as [t|]; [|inversion Hstep; subst; repeat split; intros; discriminate].
@@ -398,7 +515,7 @@ Proof.
                           | Some tp => let '(tp', o', idx) := obj_reset ops tp o in
                                        Some (put (set_tape st t tp') a o', Ok (VIdx idx))
                           end
-              end = Some (st', v) -> grows st st' /\ val_fresh true st st' v).
+              end = Some (st', v) -> grows st st' /\ val_fresh true true st st' v).
     { intros o _ _. destruct (obj_hist o) as [t|].
       - destruct (tape_of st t) as [tp|] eqn:Et; [|discriminate].
         destruct (obj_reset ops tp o) as [[tp' o'] idx] eqn:Er. intros E; inversion E; subst.
@@ -410,7 +527,7 @@ Proof.
     destruct (get st a) as [x|x|] eqn:Eg.
     + apply (K (ORec x)); [discriminate|reflexivity|exact Hstep].
     + apply (K (OCont x)); [discriminate|reflexivity|exact Hstep].
-    + apply (SK _ Hstep).
+    + apply (SK _ _ _ Hstep).
   - destruct (tape_of st t) as [tp|] eqn:Et; [|discriminate].
     destruct (reset_all ops tp t (regs st)) as [[tp' os] idx] eqn:Er. inversion Hstep; subst.
     destruct (reset_all_fresh _ _ _ _ _ _ Er) as (suf & -> & Hi).
@@ -422,6 +539,28 @@ Proof.
       exists suf. rewrite Et in H2. inversion H2. reflexivity.
     + right. exists t, tp, suf. split; [exact Et|]. split; [rewrite T, Nat.eqb_refl; reflexivity|].
       rewrite app_length in Hi. exact Hi.
+  - destruct (get_recs st rs) as [xs|] eqn:Eg; [|apply (SK _ _ _ Hstep)].
+    assert (Hs' : step ops st (TSum dst rs) = Some (st', v)) by (cbn [step]; rewrite Eg; exact Hstep).
+    destruct (sum_step_spec st dst rs xs st' v Eg Hs') as (st1 & G & Rg & Hoth & Hon & Hnone & Hv).
+    assert (G' : grows st st').
+    { destruct Hv as [[_ ->]|(z & _ & -> & _)]; [exact G|]. intros t tp H. rewrite tape_of_put. apply G, H. }
+    split; [exact G'|]. destruct Hv as [[-> _]|(z & -> & -> & Hzh)]; [exact I|].
+    cbn [val_fresh]. intros h Hh. rewrite Hh in Hzh. symmetry in Hzh.
+    destruct (tape_of st h) as [tp|] eqn:Et.
+    + destruct (Hon h tp Hzh Et) as (suf & T1 & _ & Hz). destruct (Hz z eq_refl) as (_ & pre & e & -> & Hi).
+      exists tp, pre, e. split; [reflexivity|]. split; [rewrite tape_of_put; exact T1|]. split; [exact Hi|discriminate].
+    + exfalso. revert Hstep. unfold sum_on. rewrite Hzh, Et. discriminate.
+Qed.
+
+(* the statement of next_unused as it was before TSum: for every operation other than clear and
+   Sum a record result appended exactly ONE entry and sits at the old length *)
+Corollary next_unused_single (st : state) op st' v : step ops st op = Some (st', v) ->
+  (forall t, op <> TClear t) -> (forall dst rs, op <> TSum dst rs) ->
+  grows st st' /\ val_fresh_single (negb (is_matmul op)) st st' v.
+Proof.
+  intros Hs Hc Hn. destruct (next_unused st op st' v Hs Hc) as [G V]. split; [exact G|].
+  apply val_fresh_to_single. replace (negb (is_sum op)) with true in V; [exact V|].
+  destruct op; try reflexivity. exfalso. eapply Hn. reflexivity.
 Qed.
 
 (* ------------------------------------------------------------------ the frame property
@@ -439,13 +578,13 @@ Definition add (S : nat -> bool) (d : nat) : nat -> bool := fun r => Nat.eqb r d
 Definition reads (o : @tm_op R) : list nat :=
   match o with
   | TUn _ _ _ _ a => [a] | TBin _ _ _ a b => [a; b] | TMatmul _ a b => [a; b]
-  | TDerivs a _ => [a] | TReset a => [a]
+  | TDerivs a _ => [a] | TReset a => [a] | TSum _ rs => rs
   | _ => []
   end.
 Definition dst_of (o : @tm_op R) : option nat :=
   match o with
   | TVar d _ _ | TConst d _ | TCVar d _ _ _ _ | TCConst d _ _ _ | TUn d _ _ _ _ | TBin d _ _ _ _
-  | TMatmul d _ _ => Some d
+  | TMatmul d _ _ | TSum d _ => Some d
   | TReset a => Some a
   | _ => None
   end.
@@ -502,6 +641,31 @@ Lemma hist_on_first t a b : (a = None \/ a = Some t) -> (b = None \/ b = Some t)
   first_hist a b = None \/ first_hist a b = Some t.
 Proof. intros [->| ->] [->| ->]; cbn; auto. Qed.
 
+(* the records held by registers on which two machines agree *)
+Lemma get_recs_agree (st1 st2 : state) (P : nat -> bool) : (forall r, P r = true -> get st2 r = get st1 r) ->
+  forall rs, forallb P rs = true -> get_recs st2 rs = get_recs st1 rs.
+Proof.
+  intros H. induction rs as [|a rs IH]; cbn [forallb get_recs]; [reflexivity|].
+  intros Q. apply andb_true_iff in Q as [Qa Qr]. rewrite (H a Qa), (IH Qr). reflexivity.
+Qed.
+
+Lemma get_recs_hist (st : state) t : forall rs xs, (forall r, In r rs -> hist_on t (get st r)) ->
+  get_recs st rs = Some xs -> Forall (fun x : rec => r_hist x = None \/ r_hist x = Some t) xs.
+Proof.
+  induction rs as [|a rs IH]; intros xs H; cbn [get_recs].
+  - intros E; inversion E; constructor.
+  - pose proof (H a (or_introl eq_refl)) as Ha. destruct (get st a) as [x| |]; try discriminate.
+    destruct (get_recs st rs) as [l|] eqn:El; [|discriminate]. intros E; inversion E; subst.
+    constructor; [exact Ha|]. apply IH; [|reflexivity]. intros r Hr. apply H. right. exact Hr.
+Qed.
+
+Lemma sum_hist_on t (xs : list rec) : Forall (fun x : rec => r_hist x = None \/ r_hist x = Some t) xs ->
+  sum_hist xs = None \/ sum_hist xs = Some t.
+Proof.
+  induction 1 as [|x xs Hx _ IH]; cbn [sum_hist fold_right]; [left; reflexivity|].
+  fold (sum_hist xs). destruct Hx as [-> | ->]; cbn [first_hist]; [exact IH|right; reflexivity].
+Qed.
+
 Lemma step_agree S t (st1 st2 : state) o st1' v : agree S t st1 st2 -> local_op S t o = true ->
   step ops st1 o = Some (st1', v) ->
   exists st2', step ops st2 o = Some (st2', v) /\ agree (next S o v) t st1' st2'.
@@ -511,7 +675,7 @@ Proof.
   assert (SK : forall r, skipped st1 = Some r -> exists st2', skipped st2 = Some (st2', snd r) /\ agree S t (fst r) st2').
   { intros r E. inversion E; subst. eexists. split; [reflexivity|exact Ag]. }
   destruct o as [|dst t' x|dst x|dst t' tensor sh data|dst tensor sh data|dst assign code c a|dst mode code a b|dst a b
-                 |a elem|t'|a|t']; cbn [step next dst_of reads on_list forallb] in *; try discriminate Hon.
+                 |a elem|t'|a|t'|dst rs]; cbn [step next dst_of reads on_list forallb] in *; try discriminate Hon.
   - apply Nat.eqb_eq in Hon. subst t'.
     destruct (fo_agree true S t st1 st2 dst _ _ _ _ Ag (or_intror eq_refl) (spec_var t x) Hs) as (st2' & E2 & Ag').
     exists st2'. split; [exact E2|]. destruct v; exact Ag'.
@@ -601,6 +765,23 @@ Proof.
     + destruct (K (ORec x) eq_refl Oa Hs) as (st2' & E2 & Ag'). exists st2'. split; [exact E2|]. destruct v; exact Ag'.
     + destruct (K (OCont x) eq_refl Oa Hs) as (st2' & E2 & Ag'). exists st2'. split; [exact E2|]. destruct v; exact Ag'.
     + destruct (SK _ Hs) as (st2' & E2 & Ag'). exists st2'. split; [exact E2|]. inversion Hs; subst. exact Ag'.
+  - rewrite (get_recs_agree st1 st2 S (fun r Hq => eq_sym (proj1 (A r Hq))) rs Hr).
+    destruct (get_recs st1 rs) as [xs|] eqn:Eg;
+      [|destruct (SK _ Hs) as (st2' & E2 & Ag'); exists st2'; split; [exact E2|]; inversion Hs; subst; exact Ag'].
+    assert (Hx : Forall (fun x : rec => r_hist x = None \/ r_hist x = Some t) xs).
+    { eapply get_recs_hist; [|exact Eg]. intros r Hin. apply (A r). rewrite forallb_forall in Hr. apply Hr, Hin. }
+    unfold sum_on in *. destruct (sum_hist_on t xs Hx) as [E0|E0]; rewrite E0 in *.
+    + destruct (sum_fold ops [] (rec_constant (nzero ops)) xs) as [tp' [z|e|]] eqn:Ef; cbn [fst snd sum_finish] in *;
+        inversion Hs; subst; (eexists; split; [reflexivity|]); try exact Ag.
+      destruct (sum_fold_fresh ops _ _ _ _ _ Ef) as (suf0 & _ & _ & _ & Hz).
+      apply agree_put; [exact Ag|]. left. destruct (Hz z eq_refl) as (H1 & _). cbn [obj_hist]. rewrite H1.
+      cbn [rec_constant r_hist first_hist]. exact E0.
+    + rewrite T1 in Hs. rewrite T2.
+      destruct (sum_fold ops tp (rec_constant (nzero ops)) xs) as [tp' [z|e|]] eqn:Ef; cbn [fst snd sum_finish] in *;
+        inversion Hs; subst; (eexists; split; [reflexivity|]); try (apply agree_set_tape; exact Ag).
+      destruct (sum_fold_fresh ops _ _ _ _ _ Ef) as (suf0 & _ & _ & _ & Hz).
+      apply agree_put; [apply agree_set_tape; exact Ag|]. right. destruct (Hz z eq_refl) as (H1 & _). cbn [obj_hist].
+      rewrite H1. cbn [rec_constant r_hist first_hist]. exact E0.
 Qed.
 
 Fixpoint run_set (S : nat -> bool) (st : state) (script : list (@tm_op R)) : nat -> bool :=
